@@ -229,8 +229,8 @@ def delays_for(e, cfg, conn, changing):
     if cfg["delays"] == "zero":
         return [torch.zeros(shape)] + [None] * (Tn - 1)
     if changing:
-        return [e.sym(shape, torch.float32, f"d{t}", lo=0, hi=K(mx)) for t in range(Tn)]
-    return [e.sym(shape, torch.float32, "d", lo=0, hi=K(mx))] + [None] * (Tn - 1)
+        return [e.sym(shape, torch.float32, f"d{t}", lo=0, hi=min(K(mx), F(mx))) for t in range(Tn)]
+    return [e.sym(shape, torch.float32, "d", lo=0, hi=min(K(mx), F(mx)))] + [None] * (Tn - 1)
 
 
 def signals_for(e, cfg):
